@@ -276,7 +276,10 @@ class ThreadedMailboxProcessor(BaseProcessor):
         if exc is not None:
             if isinstance(exc, GeneratorExit):
                 print("Main generator exited irregularly?!")
-                reason[2] = (
+                # reason is a (class, exception, traceback) tuple, which the savers format
+                # into their metadata: do not assign into it (that raised a TypeError and
+                # skipped the kill / join below), just say what probably happened.
+                self.log.fatal(
                     "Hm, interesting. Most likely an exception was thrown "
                     "outside strax, but we did not handle it properly."
                 )
